@@ -66,7 +66,23 @@ func digest(code uint64, ln, dig int) []byte {
 	return bytes.Repeat([]byte{byte(dig)}, ln)
 }
 
-type cidTab struct{ back map[string]string }
+type cidTab struct {
+	back   map[string]string
+	mhBack map[string]string
+}
+
+// Tab is the exported view of the token table (used by cmd/c44).
+type Tab struct{ t *cidTab }
+
+func NewTab() *Tab                    { return &Tab{&cidTab{back: map[string]string{}}} }
+func (t *Tab) Cid(tok string) cid.Cid { return t.t.cid(tok) }
+func (t *Tab) Tok(c cid.Cid) string   { return t.t.tok(c) }
+func (t *Tab) MhTok(m mh.Multihash) string {
+	if s, ok := t.t.mhBack[string(m)]; ok {
+		return s
+	}
+	return "?" + m.B58String()
+}
 
 func (t *cidTab) cid(tok string) cid.Cid {
 	f := strings.Split(tok, ".")
@@ -85,6 +101,10 @@ func (t *cidTab) cid(tok string) cid.Cid {
 		c = cid.NewCidV1(uint64(codec), m)
 	}
 	t.back[c.KeyString()] = tok
+	if t.mhBack == nil {
+		t.mhBack = map[string]string{}
+	}
+	t.mhBack[string(m)] = f[1] + "." + f[2] + "." + f[3]
 	return c
 }
 
@@ -136,6 +156,24 @@ func ParseAllowlist(ts []string) (verifcid.Allowlist, []string) {
 	case "over":
 		ov, rest := ParseAllowlist(ts[2:])
 		return verifcid.NewOverridingAllowlist(ov, parseSet(ts[1])), rest
+	}
+	panic("bsx: bad allowlist " + ts[0])
+}
+
+// specAllowed is the documented meaning of an allowlist expression, evaluated on the tokens (independent of
+// package verifcid): the outermost allow-set that mentions the code decides; then the default list (by hash
+// NAME) or, for a list without override, "not allowed".
+func specAllowed(ts []string, code uint64) bool {
+	switch ts[0] {
+	case "dflt":
+		return allowedByName[code]
+	case "plain":
+		return parseSet(ts[1])[code]
+	case "over":
+		if v, ok := parseSet(ts[1])[code]; ok {
+			return v
+		}
+		return specAllowed(ts[2:], code)
 	}
 	panic("bsx: bad allowlist " + ts[0])
 }
@@ -322,7 +360,7 @@ func Exec(c vh.Case, o *vh.Out, mon Monitors) {
 	tab := &cidTab{back: map[string]string{}}
 	r := &rec{}
 	var al verifcid.Allowlist = verifcid.DefaultAllowlist
-	isDflt := true
+	alToks := []string{"dflt"}
 	var raw blockstore.Blockstore
 	var bs blockservice.BlockService
 	var ex *exch
@@ -415,7 +453,7 @@ func Exec(c vh.Case, o *vh.Out, mon Monitors) {
 		switch f[0] {
 		case "cfg":
 			al, _ = ParseAllowlist(f[3:])
-			isDflt = f[3] == "dflt"
+			alToks = f[3:]
 			raw = blockstore.NewBlockstore(dssync.MutexWrap(ds.NewMapDatastore()))
 			ex = &exch{r: r, t: tab, onIO: onIO, notifyOK: -1}
 			var exi exchange.Interface
@@ -440,10 +478,7 @@ func Exec(c vh.Case, o *vh.Out, mon Monitors) {
 				sb.WriteByte(verrName(err)[0])
 				if mon.C04 {
 					// the property's statement, evaluated directly
-					allowed := al.IsAllowed(code)
-					if isDflt {
-						allowed = allowedByName[code]
-					}
+					allowed := specAllowed(alToks, code)
 					lo, hi := 20, 128
 					if code == mh.IDENTITY {
 						lo = 0
